@@ -75,7 +75,8 @@ def removal_pairing(ctx, tag, side):
             for bb, t in g.calls():
                 if callee_is(t, 'HashMap::remove', 'HashMap::remove_entry', 'hash_map::OccupiedEntry::remove', 'hash_map::OccupiedEntry::remove_entry'):
                     n += 1
-                    kr = P.root(P.operand(g, t['args'][1], at=bb), through_params=T.is_helper, callers=ctxs) if len(t['args']) > 1 else []
+                    from .common import removal_key_terms
+                    kr = [x for kt in removal_key_terms(P, g, bb, t) for x in P.root(kt, through_params=T.is_helper, callers=ctxs)]
                     fired = bool(kr) and all(P.is_call(r, 'DelayQueue::poll_expired') for r, _ in kr)
                     if fired:
                         R.ob(tag, (side + ' table', m.npath.split('::')[-1], 'removal for a fired timer'), True,
